@@ -249,6 +249,9 @@ func readOptHeader(r io.Reader, d io.Writer, peStart int64, fh *pe.FileHeader) (
 	cksumEnd := cksumStart + 4
 	var dd4Start int64
 	var dd pe.DataDirectory
+	if len(buf) < 2 {
+		return nil, io.ErrUnexpectedEOF
+	}
 	optMagic := binary.LittleEndian.Uint16(buf[:2])
 	switch optMagic {
 	case optHeaderMagicPE32:
